@@ -10,7 +10,7 @@ Common == <<"nil", "empty", "pat", "zeros", "ff", "startcodes">>
 ShapesOf(k) ==
   Common \o (CASE k \in {"h264", "h264_nostap"} -> <<"annexb3", "annexb4", "annexb_mixed">>
                [] k \in {"h265", "h265_donl", "h265_skipagg", "h265_donl_skipagg"} -> <<"h265nals", "annexb4", "annexb3">>
-               [] k = "av1" -> <<"obu", "obu_nosize_last", "obu_ext", "obu_bad">>
+               [] k = "av1" -> <<"obu", "obu_nosize_last", "obu_ext", "obu_bad", "obu_two">>
                [] k \in {"vp9", "vp9_flex"} -> <<"vp9_key", "vp9_inter", "vp9_p1", "vp9_p3", "vp9_existing">>
                [] OTHER -> <<>>)
 MtuSeq == LET f[S \in SUBSET Mtus] == IF S = {} THEN <<>> ELSE LET x == CHOOSE y \in S : \A z \in S : y <= z IN <<x>> \o f[S \ {x}] IN f[Mtus]
@@ -46,7 +46,14 @@ Targeted ==
        [fam |-> "C08", kind |-> "h264_nostap", scribble |-> TRUE, calls |-> <<C(m, "h264_params", 5, 1), C(m, "h264_slice", 9, 2)>>, class |-> "h264_params_then_slice"],
        [fam |-> "C08", kind |-> "h265_donl", scribble |-> TRUE, calls |-> <<C(m, "h265nals", 30, 1), C(m, "h265nals", 30, 2)>>, class |-> "h265_donl_history"],
        [fam |-> "C08", kind |-> "vp8pid", scribble |-> TRUE, calls |-> <<C(m, "pat", 30, 1), C(m, "pat", 30, 2), C(m, "pat", 30, 3)>>, class |-> "vp8pid_history"] >>])
-Raw == Concat([ki \in 1..Len(Kinds) |-> Single(ki) \o Hist(ki)]) \o Targeted
+\* AV1: an OBU that is fragmented and followed by another one, with sizes around multiples of the
+\* per-packet room (MTU - 1) where the element length field changes size
+Av1Edge ==
+  Concat([mi \in 1..NM |-> LET m == MtuSeq[mi] IN
+    IF m < 3 \/ m > 2000 THEN <<>>
+    ELSE [d \in 1..14 |-> [fam |-> "C08", kind |-> "av1", scribble |-> TRUE,
+            calls |-> <<C(m, "obu_two", (IF d <= 7 THEN 2 ELSE 3) * (m - 1) + ((d - 1) % 7) - 4, d)>>, class |-> "av1_fragment_edge"]]])
+Raw == Concat([ki \in 1..Len(Kinds) |-> Single(ki) \o Hist(ki)]) \o Targeted \o Av1Edge
 CaseSeq == [i \in 1..Len(Raw) |-> Raw[i] @@ [case |-> i]]
 ASSUME WriteCases(CaseSeq) /\ PrintT(<<"CASES", Len(CaseSeq)>>)
 =============================================================================
